@@ -70,6 +70,12 @@ Proof.
   destruct (Nat.ltb _ _); auto.
 Qed.
 
+Lemma updn_field {A} (proj : node -> A) i f s k :
+  (forall n, proj (f n) = proj n) -> proj (getn (updn i f s) k) = proj (getn s k).
+Proof.
+  intros H. destruct (getn_updn_cases i f s k) as [[_ E]|E]; rewrite E; auto.
+Qed.
+
 Lemma ready_updn i f s : ready (updn i f s) = ready s.  Proof. reflexivity. Qed.
 Lemma trace_updn i f s : trace (updn i f s) = trace s.  Proof. reflexivity. Qed.
 Lemma err_updn i f s : err (updn i f s) = err s.        Proof. reflexivity. Qed.
